@@ -28,5 +28,6 @@ HARNESSES = ST.STORE_OBLIGATIONS + SA.SERVER_SUBSCRIPTION_OBLIGATIONS + SS.MESSA
 EXPECT_COVERS = {
     "ob_instance_handle_subscribe": ["not-mine", "stop-subscribe", "rejected", "accepted"],
     "ob_announcer_handle_subscribe": ["stop-subscribe", "subscribe"],
-    "ob_reboot_then_subscribe_same_message": ["held-before"],
+    "ob_subscriber_reboot": ["record"],
+    "ob_instance_stop": ["record", "done"],
 }
